@@ -69,6 +69,9 @@ fn count_classes(cur: u64, len: usize) -> Vec<(String, u64)> {
     if len == 4 {
         v.push(("0x00ffffff".to_string(), 0x00FF_FFFF));
         v.push(("0x10000".to_string(), 0x10000));
+        // large but below / at typical allocation guards: what an allocation proportional to count x in-memory size needs
+        v.push(("0x7fffff".to_string(), 0x7F_FFFF));
+        v.push(("0x200000".to_string(), 0x20_0000));
     }
     v.retain(|(_, x)| *x != cur);
     v.dedup_by_key(|(_, x)| *x);
